@@ -647,6 +647,7 @@ func (e *Env) auditTimestamps(c *Chain, maxT int) *Violation {
 			}
 			v := e.fail("timestamp-restore-too-new", "Restore(timestamp=%d) returned a database that is not the state of any TXID replicated before T (equals TXID %d replicated at %d; expected TXID %d at %d)", ms, later, c.Times[later], want, c.Times[want])
 			v.Facts["equals_txid"] = int(later)
+			v.Facts["snapshot_db_file_ahead"] = e.planSnapshotAhead(c, time.UnixMilli(ms).UTC())
 			return v
 		}
 		// several TXIDs can share a state (no-op syncs): compare states, not numbers
@@ -723,4 +724,30 @@ func (e *Env) dbFileAhead(ent *ArchEntry, got, want *State) bool {
 		}
 	}
 	return differ > 0
+}
+
+// planSnapshotAhead reports whether the restore plan for timestamp T starts
+// with a snapshot that is newer than the TXID it advertises because it copied
+// database-file pages of later commits (finding F7; see dbFileAhead).
+func (e *Env) planSnapshotAhead(c *Chain, T time.Time) bool {
+	plan, err := litestream.CalcRestorePlan(context.Background(), file.NewReplicaClient(e.RepDir), 0, T, slog.Default())
+	if err != nil || len(plan) == 0 || plan[0].Level != litestream.SnapshotLevel {
+		return false
+	}
+	k := FileKey{plan[0].Level, plan[0].MinTXID, plan[0].MaxTXID}
+	vers := e.FS.Arch[k]
+	if len(vers) == 0 || k.Max > c.N {
+		return false
+	}
+	ent := vers[len(vers)-1]
+	f, err := decodeLTX(ent.Data)
+	if err != nil {
+		return false
+	}
+	got := applyLTX(nil, f)
+	want := c.States[k.Max]
+	if got.Hash() == want.Hash() {
+		return false
+	}
+	return e.dbFileAhead(ent, got, want)
 }
